@@ -17,7 +17,10 @@
 (*   exitedP[c]       pool.exited placeholder: "none" | "stale" | "fresh"  *)
 (*                    (fresh = a queue poll started after the exit)        *)
 (*   ProbeStart/End   worker.probeAndUpdate (result discarded when         *)
-(*                    wkr.updated changed meanwhile: dirty)                *)
+(*                    wkr.updated changed meanwhile: dirty; the constant   *)
+(*                    ProbeCheckUpdated = FALSE shows why: an answer taken *)
+(*                    before a start and applied after it reaps the live   *)
+(*                    runner, MC_Dispatch_probe_kf.cfg)                    *)
 (*   StartExec        remoteRunner.Start on the VM + starting -> running   *)
 (*   KillTick         remoteRunner.Kill loop: SIGTERM, onKilled            *)
 (*   IdleShutdown, DestroyOK, InstanceGone   shutdown / Destroy / pool.sync *)
@@ -50,6 +53,8 @@ CONSTANTS NC, NW,            \* containers 1..NC, instance slots 1..NW
           StaleTimeout,      \* BOOLEAN: fixStaleLocks may time out
           StaleLists,        \* BOOLEAN: the cloud's list call takes time (ListStart .. ListApply are separate steps)
           ThresholdBefore,   \* BOOLEAN: pool.sync's threshold is taken before the list call (the code) or after it
+          ProbeCheckUpdated, \* BOOLEAN: a probe answer is discarded when wkr.updated changed meanwhile (the code) or only while a start is pending
+          QuotaErrors,       \* BOOLEAN: the cloud may answer a Create call with a quota error (once)
           InitStates,        \* initial API states of containers
           B,                 \* budgets [restart, crash, user, brk, apifail, opib]
           MaxHist
@@ -58,6 +63,7 @@ VARIABLES api, procs, ib, ibv, lk, lkNext, pass, ever, pend, mode, \* contract
           q, upd, dontupd, nextq, updMark,                   \* queue cache
           wk, exitedP, probing, dirty, killing, broken, vmx, \* pool; VM truth [exists, booted], unresponsive VMs
           rb,                                                \* VMs whose probe answers say "broken"
+          atq,                                               \* "no" | "on" (hold-off after a quota error) | "used"
           lsnap, born,                                       \* list call in flight: instances it saw (or <<>> = none in flight); workers created since
           phase, stale, rqE, rqRun, rqTodo, rqCur, unalloc, dontstart, overq,   \* scheduler
           op, spawn,                                         \* per-container operations
@@ -69,7 +75,7 @@ C == INSTANCE DispatchContract
 
 dcvars == <<api, procs, ib, ibv, lk, lkNext, pass, ever, pend, mode>>
 qv == <<q, upd, dontupd, nextq, updMark>>
-pv == <<wk, exitedP, probing, dirty, killing, broken, vmx, rb, lsnap, born>>
+pv == <<wk, exitedP, probing, dirty, killing, broken, vmx, rb, lsnap, born, atq>>
 sv == <<phase, stale, rqE, rqRun, rqTodo, rqCur, unalloc, dontstart, overq>>
 ov == <<op, spawn>>
 vars == <<dcvars, qv, pv, sv, ov, bud, kf, last, hist>>
@@ -92,7 +98,7 @@ Init ==
     /\ q = [c \in Ctrs |-> NoEnt] /\ upd = "idle" /\ dontupd = {} /\ nextq = [c \in Ctrs |-> NoEnt]
     /\ updMark = {}
     /\ wk = [w \in Wk |-> NoWk] /\ exitedP = [c \in Ctrs |-> "none"]
-    /\ probing = [w \in Wk |-> NoProbe] /\ dirty = {} /\ killing = [w \in Wk |-> {}] /\ broken = {} /\ vmx = [w \in Wk |-> NoVm] /\ rb = {} /\ lsnap = <<>> /\ born = {}
+    /\ probing = [w \in Wk |-> NoProbe] /\ dirty = {} /\ killing = [w \in Wk |-> {}] /\ broken = {} /\ vmx = [w \in Wk |-> NoVm] /\ rb = {} /\ lsnap = <<>> /\ born = {} /\ atq = "no"
     /\ phase = "boot" /\ stale = {} /\ rqE = [c \in Ctrs |-> NoEnt] /\ rqRun = {} /\ rqTodo = {}
     /\ rqCur = 0 /\ unalloc = 0 /\ dontstart = FALSE /\ overq = FALSE
     /\ op = [c \in Ctrs |-> NoOp] /\ spawn = [c \in Ctrs |-> {}]
@@ -107,7 +113,7 @@ HasRunner(c) == \E w \in Wk : c \in Runners(w)
 RunningKeys == {c \in Ctrs : HasRunner(c) \/ exitedP[c] # "none"}
 AnyUnknown == \E w \in Wk : wk[w].st = "unknown"
 FreeSlots == {w \in Wk : wk[w].st = "absent" /\ ~vmx[w].exists}
-AtQuota == FreeSlots = {}
+AtQuota == FreeSlots = {} \/ atq = "on"
 Ours(c) == api[c].state \in {"Locked", "Running"}
 
 ShutdownWk(w) == [wk EXCEPT ![w].st = "shutdown"]
@@ -175,7 +181,7 @@ VMBoot(w) ==
     /\ vmx[w].exists /\ ~vmx[w].booted
     /\ vmx' = [vmx EXCEPT ![w].booted = TRUE]
     /\ Ev("none", 0, w) /\ H("vmboot", 0, w, "")
-    /\ UNCHANGED <<dcvars, qv, wk, exitedP, probing, dirty, killing, broken, rb, lsnap, born, sv, ov, bud, kf>>
+    /\ UNCHANGED <<dcvars, qv, wk, exitedP, probing, dirty, killing, broken, rb, lsnap, born, atq, sv, ov, bud, kf>>
 
 \* the VM stops answering (its processes go on)
 VMBreak(w) ==
@@ -183,12 +189,12 @@ VMBreak(w) ==
     /\ broken' = broken \cup {w}
     /\ bud' = [bud EXCEPT !.brk = @ - 1]
     /\ Ev("none", 0, w) /\ H("vmbreak", 0, w, "")
-    /\ UNCHANGED <<dcvars, qv, wk, exitedP, probing, dirty, killing, vmx, rb, lsnap, born, sv, ov, kf>>
+    /\ UNCHANGED <<dcvars, qv, wk, exitedP, probing, dirty, killing, vmx, rb, lsnap, born, atq, sv, ov, kf>>
 
 \* the VM starts answering "broken" to probes (it keeps working)
 VMReportBroken(w) ==
     /\ bud.brk > 0 /\ vmx[w].exists /\ w \notin rb
-    /\ rb' = rb \cup {w} /\ UNCHANGED <<lsnap, born>>
+    /\ rb' = rb \cup {w} /\ UNCHANGED <<lsnap, born, atq>>
     /\ bud' = [bud EXCEPT !.brk = @ - 1]
     /\ Ev("none", 0, w) /\ H("vmreportbroken", 0, w, "")
     /\ UNCHANGED <<dcvars, qv, wk, exitedP, probing, dirty, killing, broken, vmx, sv, ov, kf>>
@@ -208,7 +214,7 @@ OpKillInstance(w) ==
     /\ wk' = ShutdownWk(w) /\ dirty' = dirty \cup {w}
     /\ bud' = [bud EXCEPT !.opib = @ - 1]
     /\ Ev("none", 0, w) /\ H("opkill", 0, w, "")
-    /\ UNCHANGED <<dcvars, qv, exitedP, probing, killing, broken, vmx, rb, lsnap, born, sv, ov, kf>>
+    /\ UNCHANGED <<dcvars, qv, exitedP, probing, killing, broken, vmx, rb, lsnap, born, atq, sv, ov, kf>>
 
 ------------------------------------------------------------------------------
 (* Queue cache: container.Queue.Update *)
@@ -244,7 +250,7 @@ UpdEnd ==
     /\ phase' = IF phase = "boot" THEN "fix" ELSE phase
     /\ C!UpdApplyEff
     /\ Ev("updapply", 0, 0) /\ H("updend", 0, 0, "")
-    /\ UNCHANGED <<nextq, updMark, wk, probing, dirty, killing, broken, vmx, rb, lsnap, born,
+    /\ UNCHANGED <<nextq, updMark, wk, probing, dirty, killing, broken, vmx, rb, lsnap, born, atq,
                    stale, rqE, rqRun, rqTodo, rqCur, unalloc, dontstart, overq, ov, bud, kf>>
 
 \* test.Queue.Update: poll and apply in one step
@@ -255,7 +261,7 @@ UpdAtomic ==
     /\ phase' = IF phase = "boot" THEN "fix" ELSE phase
     /\ C!UpdAtomicEff
     /\ Ev("updatomic", 0, 0) /\ H("update", 0, 0, "")
-    /\ UNCHANGED <<upd, dontupd, nextq, updMark, wk, probing, dirty, killing, broken, vmx, rb, lsnap, born,
+    /\ UNCHANGED <<upd, dontupd, nextq, updMark, wk, probing, dirty, killing, broken, vmx, rb, lsnap, born, atq,
                    stale, rqE, rqRun, rqTodo, rqCur, unalloc, dontstart, overq, ov, bud, kf>>
 
 ------------------------------------------------------------------------------
@@ -271,7 +277,7 @@ ProbeStart(w) ==
                                               list |-> IF okk THEN procs[w] ELSE {}, rb |-> okk /\ w \in rb]]
     /\ dirty' = dirty \ {w}
     /\ Ev("none", 0, w) /\ H("probestart", 0, w, "")
-    /\ UNCHANGED <<dcvars, qv, wk, exitedP, killing, broken, vmx, rb, lsnap, born, sv, ov, bud, kf>>
+    /\ UNCHANGED <<dcvars, qv, wk, exitedP, killing, broken, vmx, rb, lsnap, born, atq, sv, ov, bud, kf>>
 
 \* first thing probeAndUpdate does with an answer that says "broken": drain the worker (unless the
 \* operator has set another idle behaviour); a separate step here, under the same lock in the code
@@ -295,8 +301,8 @@ ProbeEnd(w, tmo) ==
                   THEN wk' = ShutdownWk(w) /\ dirty' = dirty \cup {w}
                   ELSE ~tmo /\ UNCHANGED <<wk, dirty>>
                /\ UNCHANGED <<exitedP, updMark, killing>>
-          ELSE IF w \in dirty
-          THEN ~tmo /\ UNCHANGED <<wk, exitedP, updMark, dirty, killing>>
+          ELSE IF (IF ProbeCheckUpdated THEN w \in dirty ELSE wk[w].starting # {})
+          THEN ~tmo /\ UNCHANGED <<wk, exitedP, updMark, dirty, killing>>      \* stale answer discarded
           ELSE LET gone == wk[w].running \ p.list
                    st1 == IF p.booted /\ wk[w].st \in {"unknown", "booting"} THEN "idle" ELSE wk[w].st
                    nstart == wk[w].starting \ p.list
@@ -311,7 +317,7 @@ ProbeEnd(w, tmo) ==
                   /\ killing' = [killing EXCEPT ![w] = @ \ gone]
                   /\ dirty' = IF gone # {} THEN dirty \cup {w} ELSE dirty
     /\ Ev(IF tmo THEN "probetimeout" ELSE "none", 0, w) /\ H("probeend", 0, w, IF tmo THEN "timeout" ELSE "")
-    /\ UNCHANGED <<dcvars, q, upd, dontupd, nextq, broken, vmx, rb, lsnap, born, sv, ov, bud, kf>>
+    /\ UNCHANGED <<dcvars, q, upd, dontupd, nextq, broken, vmx, rb, lsnap, born, atq, sv, ov, bud, kf>>
 
 \* remoteRunner.Start executes on the VM, then starting -> running under the pool lock
 StartExec(w, c) ==
@@ -322,7 +328,7 @@ StartExec(w, c) ==
     /\ wk' = [wk EXCEPT ![w].starting = @ \ {c}, ![w].running = @ \cup {c}]
     /\ dirty' = dirty \cup {w}
     /\ H("startexec", c, w, IF Reach(w) THEN "ok" ELSE "fail")
-    /\ UNCHANGED <<qv, exitedP, probing, killing, broken, vmx, rb, lsnap, born, sv, ov, bud, kf>>
+    /\ UNCHANGED <<qv, exitedP, probing, killing, broken, vmx, rb, lsnap, born, atq, sv, ov, bud, kf>>
 
 \* one round of the remoteRunner.Kill loop for the runner of c on w
 KillTick(w, c) ==
@@ -342,7 +348,7 @@ KillTick(w, c) ==
                     /\ killing' = [killing EXCEPT ![w] = @ \ {c}]
                     /\ UNCHANGED dcvars /\ Ev("none", c, w)
     /\ H("killtick", c, w, "")
-    /\ UNCHANGED <<q, upd, dontupd, nextq, probing, broken, vmx, rb, lsnap, born, sv, ov, bud, kf>>
+    /\ UNCHANGED <<q, upd, dontupd, nextq, probing, broken, vmx, rb, lsnap, born, atq, sv, ov, bud, kf>>
 
 \* runProbes: shutdownIfIdle (idle timeout or drain)
 IdleShutdown(w) ==
@@ -351,16 +357,22 @@ IdleShutdown(w) ==
        \/ wk[w].st = "booting" /\ ib[w] = "drain"
     /\ wk' = ShutdownWk(w) /\ dirty' = dirty \cup {w}
     /\ Ev("idleshutdown", 0, w) /\ H("idleshutdown", 0, w, "")
-    /\ UNCHANGED <<dcvars, qv, exitedP, probing, killing, broken, vmx, rb, lsnap, born, sv, ov, bud, kf>>
+    /\ UNCHANGED <<dcvars, qv, exitedP, probing, killing, broken, vmx, rb, lsnap, born, atq, sv, ov, bud, kf>>
 
 \* instance.Destroy succeeds (failures are the steps where it does not happen)
 DestroyOK(w) ==
     /\ wk[w].st = "shutdown" /\ vmx[w].exists
     /\ vmx' = [vmx EXCEPT ![w] = NoVm]
     /\ C!VmGoneEff(w)
-    /\ broken' = broken \ {w} /\ rb' = rb \ {w} /\ UNCHANGED <<lsnap, born>>
+    /\ broken' = broken \ {w} /\ rb' = rb \ {w} /\ UNCHANGED <<lsnap, born, atq>>
     /\ Ev("vmgone", 0, w) /\ H("destroyok", 0, w, "")
     /\ UNCHANGED <<qv, wk, exitedP, probing, dirty, killing, sv, ov, bud, kf>>
+
+\* the hold-off after a quota error ends (quotaErrorTTL) - capacity has returned
+QuotaExpire ==
+    /\ atq = "on" /\ atq' = "used"
+    /\ Ev("none", 0, 0) /\ H("quotaexpire", 0, 0, "")
+    /\ UNCHANGED <<dcvars, qv, wk, exitedP, probing, dirty, killing, broken, vmx, rb, lsnap, born, sv, ov, bud, kf>>
 
 \* pool.runSync: the cloud's list call fails (rate limit, error): nothing changes, the timer is set
 \* again; that InstanceGone / DestroyOK are weakly fair says that some later sync succeeds
@@ -380,7 +392,7 @@ ListStart ==
     /\ StaleLists /\ lsnap = <<>> /\ phase # "boot"
     /\ lsnap' = <<{w \in Wk : vmx[w].exists}>> /\ born' = {}
     /\ Ev("none", 0, 0) /\ H("liststart", 0, 0, "")
-    /\ UNCHANGED <<dcvars, qv, wk, exitedP, probing, dirty, killing, broken, vmx, rb, sv, ov, bud, kf>>
+    /\ UNCHANGED <<dcvars, qv, wk, exitedP, probing, dirty, killing, broken, vmx, rb, atq, sv, ov, bud, kf>>
 
 ListApply ==
     /\ lsnap # <<>>
@@ -393,7 +405,7 @@ ListApply ==
           /\ probing' = [w \in Wk |-> IF w \in gone THEN NoProbe ELSE probing[w]]
     /\ lsnap' = <<>> /\ born' = {}
     /\ Ev("none", 0, 0) /\ H("listapply", 0, 0, "")
-    /\ UNCHANGED <<dcvars, qv, exitedP, dirty, broken, vmx, rb, sv, ov, bud, kf>>
+    /\ UNCHANGED <<dcvars, qv, exitedP, dirty, broken, vmx, rb, atq, sv, ov, bud, kf>>
 
 \* pool.sync: the instance is no longer listed; its runners are abandoned (no exited placeholder)
 InstanceGone(w) ==
@@ -403,7 +415,7 @@ InstanceGone(w) ==
     /\ probing' = [probing EXCEPT ![w] = NoProbe]
     /\ broken' = broken \ {w}
     /\ Ev("none", 0, w) /\ H("instancegone", 0, w, "")
-    /\ UNCHANGED <<dcvars, qv, exitedP, dirty, vmx, rb, lsnap, born, sv, ov, bud, kf>>
+    /\ UNCHANGED <<dcvars, qv, exitedP, dirty, vmx, rb, lsnap, born, atq, sv, ov, bud, kf>>
 
 ------------------------------------------------------------------------------
 (* Scheduler *)
@@ -422,7 +434,7 @@ Restart ==
     /\ op' = [c \in Ctrs |-> NoOp] /\ spawn' = [c \in Ctrs |-> {}]
     /\ C!RestartEff
     /\ Ev("restart", 0, 0) /\ H("restart", 0, 0, "")
-    /\ UNCHANGED <<broken, vmx, rb, lsnap, born, kf>>
+    /\ UNCHANGED <<broken, vmx, rb, lsnap, born, atq, kf>>
 
 \* fixStaleLocks: one evaluation of the loop condition and body
 FixIter ==
@@ -486,33 +498,37 @@ RQVisit(c) ==
     /\ LET e == rqE[c] IN
        IF c \in rqRun \/ e.prio < 1 \/ e.state \notin {"Queued", "Locked"}
        THEN /\ rqTodo' = rqTodo \ {c}
-            /\ UNCHANGED <<dcvars, q, dontupd, wk, vmx, rb, lsnap, born, killing, rqCur, unalloc, overq, spawn>> /\ Ev("none", c, 0)
+            /\ UNCHANGED <<dcvars, q, dontupd, wk, vmx, rb, lsnap, born, atq, killing, rqCur, unalloc, overq, spawn>> /\ Ev("none", c, 0)
        ELSE IF e.state = "Queued"
        THEN IF unalloc < 1 /\ AtQuota
             THEN /\ overq' = TRUE
-                 /\ UNCHANGED <<dcvars, q, dontupd, wk, vmx, rb, lsnap, born, killing, rqTodo, rqCur, unalloc, spawn>> /\ Ev("none", c, 0)
+                 /\ UNCHANGED <<dcvars, q, dontupd, wk, vmx, rb, lsnap, born, atq, killing, rqTodo, rqCur, unalloc, spawn>> /\ Ev("none", c, 0)
             ELSE IF HasRunner(c)
             THEN /\ killing' = KillSide(c)
                  /\ rqTodo' = rqTodo \ {c}
-                 /\ UNCHANGED <<dcvars, q, dontupd, wk, vmx, rb, lsnap, born, rqCur, unalloc, overq, spawn>> /\ Ev("none", c, 0)
+                 /\ UNCHANGED <<dcvars, q, dontupd, wk, vmx, rb, lsnap, born, atq, rqCur, unalloc, overq, spawn>> /\ Ev("none", c, 0)
             ELSE /\ spawn' = [spawn EXCEPT ![c] = @ \cup {"lock"}]
                  /\ unalloc' = IF unalloc > 0 THEN unalloc - 1 ELSE 0      \* may go negative in Go; floor is equivalent
                  /\ rqTodo' = rqTodo \ {c}
-                 /\ UNCHANGED <<dcvars, q, dontupd, wk, vmx, rb, lsnap, born, killing, rqCur, overq>> /\ Ev("none", c, 0)
+                 /\ UNCHANGED <<dcvars, q, dontupd, wk, vmx, rb, lsnap, born, atq, killing, rqCur, overq>> /\ Ev("none", c, 0)
        ELSE IF unalloc > 0
             THEN /\ unalloc' = unalloc - 1 /\ rqCur' = c /\ rqTodo' = rqTodo \ {c}
-                 /\ UNCHANGED <<dcvars, q, dontupd, wk, vmx, rb, lsnap, born, killing, overq, spawn>> /\ Ev("none", c, 0)
+                 /\ UNCHANGED <<dcvars, q, dontupd, wk, vmx, rb, lsnap, born, atq, killing, overq, spawn>> /\ Ev("none", c, 0)
             ELSE IF AtQuota
             THEN /\ UnlockNow(c)
                  /\ overq' = TRUE
-                 /\ UNCHANGED <<wk, vmx, rb, lsnap, born, killing, rqTodo, rqCur, unalloc, spawn>>
-            ELSE \E w \in FreeSlots :                                        \* pool.Create
-                 /\ vmx' = [vmx EXCEPT ![w] = [exists |-> TRUE, booted |-> FALSE]]
-                 /\ UNCHANGED dcvars /\ Ev("none", 0, w)
-                 /\ wk' = [wk EXCEPT ![w] = [st |-> "booting", starting |-> {}, running |-> {}]]
-                 /\ born' = born \cup {w}
-                 /\ rqCur' = c /\ rqTodo' = rqTodo \ {c}
-                 /\ UNCHANGED <<q, dontupd, killing, unalloc, overq, spawn, lsnap>>
+                 /\ UNCHANGED <<wk, vmx, rb, lsnap, born, atq, killing, rqTodo, rqCur, unalloc, spawn>>
+            ELSE \/ /\ QuotaErrors /\ atq = "no"                              \* pool.Create accepted, the cloud says: quota
+                    /\ atq' = "on"                                           \* (hold-off: AtQuota() until QuotaExpire)
+                    /\ rqCur' = c /\ rqTodo' = rqTodo \ {c}
+                    /\ UNCHANGED <<dcvars, q, dontupd, wk, vmx, rb, lsnap, born, killing, unalloc, overq, spawn>> /\ Ev("none", c, 0)
+                 \/ \E w \in FreeSlots :                                     \* pool.Create
+                      /\ vmx' = [vmx EXCEPT ![w] = [exists |-> TRUE, booted |-> FALSE]]
+                      /\ UNCHANGED dcvars /\ Ev("none", 0, w)
+                      /\ wk' = [wk EXCEPT ![w] = [st |-> "booting", starting |-> {}, running |-> {}]]
+                      /\ born' = born \cup {w}
+                      /\ rqCur' = c /\ rqTodo' = rqTodo \ {c}
+                      /\ UNCHANGED <<q, dontupd, killing, unalloc, overq, spawn, lsnap, atq>>
     /\ H("rqvisit", c, IF \E w \in Wk : wk'[w].st = "booting" /\ wk[w].st = "absent"
                        THEN CHOOSE w \in Wk : wk'[w].st = "booting" /\ wk[w].st = "absent" ELSE 0, "")
     /\ UNCHANGED <<upd, nextq, updMark, exitedP, probing, dirty, broken, rb, phase, stale, rqE, rqRun, dontstart,
@@ -538,7 +554,7 @@ RQStart ==
           ELSE dontstart' = TRUE /\ UNCHANGED <<dcvars, wk, killing>> /\ Ev("none", c, 0)
     /\ rqCur' = 0
     /\ H("rqstart", rqCur, last'.w, "")
-    /\ UNCHANGED <<qv, exitedP, probing, dirty, broken, vmx, rb, lsnap, born, phase, stale, rqE, rqRun, rqTodo, unalloc, overq, ov, bud, kf>>
+    /\ UNCHANGED <<qv, exitedP, probing, dirty, broken, vmx, rb, lsnap, born, atq, phase, stale, rqE, rqRun, rqTodo, unalloc, overq, ov, bud, kf>>
 
 RQEnd ==
     /\ phase = "rq" /\ rqCur = 0 /\ (rqTodo = {} \/ overq)
@@ -567,7 +583,7 @@ RQTailEnd ==
           ELSE UNCHANGED <<wk, dirty>>
     /\ phase' = "sync"
     /\ Ev("none", 0, 0) /\ H("rqtailend", 0, 0, "")
-    /\ UNCHANGED <<dcvars, qv, exitedP, probing, killing, broken, vmx, rb, lsnap, born, stale, rqE, rqRun, rqTodo, rqCur, unalloc,
+    /\ UNCHANGED <<dcvars, qv, exitedP, probing, killing, broken, vmx, rb, lsnap, born, atq, stale, rqE, rqRun, rqTodo, rqCur, unalloc,
                    dontstart, overq, ov, bud, kf>>
 
 \* sync: decisions on its own snapshots; goroutines are spawned, Forget is done inline
@@ -615,7 +631,7 @@ GoStart(c, k) ==
        ELSE /\ op' = [op EXCEPT ![c] = [NoOp EXCEPT !.k = k, !.st = "latched"]]
             /\ UNCHANGED <<killing, exitedP>>
     /\ Ev("none", c, 0) /\ H("gostart", c, 0, k)
-    /\ UNCHANGED <<dcvars, qv, wk, probing, dirty, broken, vmx, rb, lsnap, born, sv, bud, kf>>
+    /\ UNCHANGED <<dcvars, qv, wk, probing, dirty, broken, vmx, rb, lsnap, born, atq, sv, bud, kf>>
 
 \* the API server performs the call
 ApiCommit(c) ==
@@ -661,7 +677,7 @@ EnvNext == \/ \E c \in Ctrs : UserCancel(c) \/ UserHold(c)
                             \/ OpKillInstance(w)
            \/ Restart
 
-PoolNext == \/ UpdStart \/ UpdEnd \/ UpdAtomic \/ SyncFail \/ ListStart \/ ListApply
+PoolNext == \/ UpdStart \/ UpdEnd \/ UpdAtomic \/ SyncFail \/ ListStart \/ ListApply \/ QuotaExpire
             \/ \E w \in Wk : ProbeStart(w) \/ ProbeDrain(w) \/ ProbeEnd(w, FALSE) \/ ProbeEnd(w, TRUE) \/ IdleShutdown(w)
                              \/ DestroyOK(w) \/ InstanceGone(w)
             \/ \E w \in Wk, c \in Ctrs : StartExec(w, c) \/ KillTick(w, c)
@@ -703,7 +719,7 @@ SpecGen == Init /\ [][NextGen]_vars
 Wanted == \E c \in Ctrs : q[c].in /\ q[c].state \in {"Queued", "Locked"} /\ q[c].prio > 0 /\ c \notin RunningKeys
 Fairness ==
     /\ WF_vars(SchedNext)
-    /\ WF_vars(UpdAtomic) /\ WF_vars(UpdStart) /\ WF_vars(UpdEnd)
+    /\ WF_vars(UpdAtomic) /\ WF_vars(UpdStart) /\ WF_vars(UpdEnd) /\ WF_vars(QuotaExpire)
     /\ \A w \in Wk : /\ WF_vars(ProbeStart(w)) /\ WF_vars(ProbeEnd(w, FALSE)) /\ SF_vars(ProbeEnd(w, TRUE))
                      /\ WF_vars(IdleShutdown(w) /\ (~Wanted \/ ib[w] = "drain")) /\ WF_vars(DestroyOK(w)) /\ WF_vars(InstanceGone(w))
                      /\ WF_vars(ProbeDrain(w))
